@@ -389,8 +389,45 @@ def importer_tables(prog: Program) -> dict:
 # exporter
 # ---------------------------------------------------------------------------
 
-def exporter_model(prog: Program) -> dict:
+def canon_exporter(prog: Program):
+    """stereo_mol_graph_to_rdmol with its central locals under role names
+    (the descriptor tested by isinstance(.., <atom class>) is `a_stereo`, the
+    one tested against PlanarBond / AtropBond `b_stereo`, the RDKit atom that
+    receives SetChiralTag `rd_atom`, the bond that receives SetStereo
+    `rd_bond`)."""
+    import re
+    from .core import FuncInfo, clone, set_parents
     fi = prog.fn("graph2rdmol:stereo_mol_graph_to_rdmol")
+    table: dict[str, str] = {}
+    for n in ast.walk(fi.node):
+        if isinstance(n, ast.Call) and call_name(n) == "isinstance" and len(
+                n.args) == 2 and isinstance(n.args[0], ast.Name):
+            cls = norm(n.args[1])
+            if cls in ("Tetrahedral", "SquarePlanar", "TrigonalBipyramidal",
+                       "Octahedral"):
+                table.setdefault(n.args[0].id, "a_stereo")
+            elif cls in ("PlanarBond", "AtropBond"):
+                table.setdefault(n.args[0].id, "b_stereo")
+        if isinstance(n, ast.Call) and isinstance(n.func, ast.Attribute) and \
+                isinstance(n.func.value, ast.Name):
+            if n.func.attr == "SetChiralTag":
+                table.setdefault(n.func.value.id, "rd_atom")
+            elif n.func.attr in ("SetStereo", "SetStereoAtoms"):
+                table.setdefault(n.func.value.id, "rd_bond")
+    used = {x.id for x in ast.walk(fi.node) if isinstance(x, ast.Name)}
+    table = {k: v for k, v in table.items() if k != v and v not in used}
+    if not table:
+        return fi
+    fn = clone(fi.node)
+    for x in ast.walk(fn):
+        if isinstance(x, ast.Name) and x.id in table:
+            x.id = table[x.id]
+    set_parents(fn)
+    return FuncInfo(fi.qual, fi.module, fn, fi.cls)
+
+
+def exporter_model(prog: Program) -> dict:
+    fi = canon_exporter(prog)
     out: dict = {"_fi": fi}
     # tetrahedral tag table
     tags = {}
